@@ -243,7 +243,6 @@ def handle : Handler
     pure { out := dumpsReq {} calls ++ ["W", encHex hdr.bytes],
            spec := ok && lineSpec,
            specNote := if !lineSpec then "request line: not exactly two SP / CR or LF inside" else note,
-           cls := if !lineOk then "start-line-raw" else "",
            tag := "apireq:" ++ sizeClass calls.length ++ boolTok special ++ boolTok (!st.cookies.isEmpty) ++ boolTok (!st.trailer.isEmpty)
                   ++ boolTok (hdr.fields.any (fun kv => !validName kv.1)) ++ boolTok (hdr.fields.any (fun kv => !noCRLF kv.2))
                   ++ boolTok st.disableNorm ++ boolTok lineOk ++ ":" ++ rarest reqPrio (rareReq {} calls) }
@@ -282,7 +281,6 @@ def handle : Handler
           fs.all (fun kv => validName kv.1 && noCRLF kv.2 && allowed.contains kv.1)
     pure { out := [encHex (hdr.bytes ++ body), "0"], spec := err == "0" && ok,
            specNote := "req.Write: one request line, the expected fields (names from calls), then the body",
-           cls := if !lineOk then "start-line-raw" else "",
            tag := "apireqw:" ++ sizeClass calls.length ++ bl ++ boolTok st.host.isEmpty ++ boolTok hdr.ignoreBody ++ boolTok lineOk
                   ++ boolTok (hdr.fields.any (fun kv => !noCRLF kv.2)) }
   | "apirespw" :: bl :: toks, [sl, date, wire, err] => do
@@ -306,10 +304,8 @@ def handle : Handler
     let m ← hx m; let u ← hx u; let w ← hx wire
     let hdr := (runReq [.setMethod m, .setRequestURI u]).toHdr
     let line := requestLine m u
-    let lineOk := clean3 hdr.methodOrGet && clean3 (if u.isEmpty then Gen.Str.strSlash else u)
     let ok := Spec.Head.parseHead w == some (line, kept hdr.fields, []) && count32 line == 2 && noCRLF line
     pure { out := [encHex hdr.bytes], spec := ok, specNote := "request line: method SP target SP HTTP/1.1, exactly two SP, no CR/LF",
-           cls := if !lineOk then "start-line-raw" else "",
            tag := "apiline:" ++ boolTok (clean3 m) ++ boolTok (clean3 u) ++ boolTok m.isEmpty ++ boolTok u.isEmpty ++ boolTok (noCRLF line) }
   | "apitarget" :: _script, method :: host :: dpn :: po :: path :: qs :: parsed :: nq :: t => do
     let (qa, t) ← takeArgs nq.toNat! t
@@ -322,7 +318,6 @@ def handle : Handler
       let isConnect := m == Gen.Str.strConnect
       -- `req.Write`: the target of CONNECT is `uri.Host()`
       let line := requestLine m (if isConnect then hostB else tg)
-      let lineOk := clean3 m && clean3 (if isConnect then hostB else mt)
       let ok :=
         if err == "1" then w.isEmpty
         else match Spec.Head.parseHead w with
@@ -330,7 +325,6 @@ def handle : Handler
           | some (s, fs, _) => s == line && count32 s == 2 && noCRLF s && fs.all (fun kv => validName kv.1 && noCRLF kv.2)
       pure { out := [method, host, dpn, po, path, qs, parsed, nq] ++ argToks qa ++ [encHex mt, wire, err],
              spec := ok, specNote := "req.Write: request line = method SP URI.RequestURI() SP HTTP/1.1, two SP, no CR/LF; fields clean",
-             cls := if !lineOk then "start-line-raw" else "",
              tag := "apitarget:" ++ dpn ++ parsed ++ err ++ boolTok (clean3 m) ++ boolTok (clean3 mt) ++ boolTok isConnect ++ boolTok (noCRLF mt) }
     | _ => none
   | ["apicookie", tok], [cb, lineB] => do
